@@ -180,6 +180,10 @@ def run(oc, tier, seed, model_available, escalate):
             cand = [j for j in range(len(bounds) - 1) if any(dmg[order[m]] != tree[order[m]] for m in range(j + 1, len(bounds)))]
             if cand:
                 vi = rng.choice(cand)
+        if kd in ("empty", "tiny") and vi == len(bounds) - 1 and len(bounds) >= 2 and rng.random() < 0.8:
+            # directed: an entry reduced to (almost) nothing that is NOT the last one (two markers then follow each other): the entries
+            # after it must still be visited
+            vi = rng.randrange(len(bounds) - 1)
         if kd == "size_small":
             if P.tool == "whole":
                 big = [j for j in range(len(bounds)) if len(tree[order[j]]) > P.size]
@@ -196,7 +200,9 @@ def run(oc, tier, seed, model_available, escalate):
         i = new.find(eu.MARKER)
         while i >= 0:
             occ.append(i)
-            i = new.find(eu.MARKER, i + 1)
+            # (as the scanner sees them: the search for the next marker starts after the end of this one - two markers that follow each
+            # other directly, an entry reduced to nothing, are two markers and not six overlapping ones)
+            i = new.find(eu.MARKER, i + len(eu.MARKER))
         intended = [bs if j < vi else bs + shift for j, (bs, be) in enumerate(bounds) if j != vi]
         extra = [o for o in occ if o not in intended and o != s]
         if extra:
@@ -217,6 +223,10 @@ def run(oc, tier, seed, model_available, escalate):
                 if out.get(p) != out0.get(p):
                     bad = "file %s, whose entry is intact, is not handled as with the pristine ecc file (victim %s, %s)" % (p, order[vi], kd)
                     break
+            if not bad and st is not None and st0 is not None and st[0] + st[-1] < st0[0] + st0[-1] - 1:
+                # (processed + skipped = entries the run looked at: damage inside ONE entry can make at most that one entry disappear)
+                bad = "the run looked at %d entries, the run on the pristine ecc file at %d: entries other than the victim's were not visited (victim %s, %s)" % (
+                    st[0] + st[-1], st0[0] + st0[-1], order[vi], kd)
             if not bad and eu.read_tree(droot) != dmg:
                 bad = "an input file was modified"
         if bad:
